@@ -1077,6 +1077,8 @@ fn spawn_async_ao_list_in_task'''),
         ('last-fragment-dropped', 'brush-core/src/patterns.rs', "            while let Some(piece) = split_result.pop_front() {\n                components.push(vec![piece]);\n            }", "            while let Some(piece) = split_result.pop_front() {\n                if split_result.len() > 0 { components.push(vec![piece]); }\n            }"),
     ],
     'U50': [
+        ('upper-end-of-a-range-loses-its-backslash', 'brush-parser/src/pattern.rs', [("                let (to_str, to_c) = to;", "                let (_, to_c) = to;"), ("                    Some(std::format!(\"{from_str}-{to_str}\"))", "                    Some(std::format!(\"{from_str}-{to_c}\"))")]),
+        ('equal-ends-are-no-range', 'brush-parser/src/pattern.rs', "                if from_c <= to_c {", "                if from_c < to_c {"),
         ('every-escape-passed-through', 'brush-parser/src/pattern.rs', "            sequence:$(['\\\\'] [c if regex_char_needs_escaping(c)]) { sequence.to_owned() } /\n            ['\\\\'] [c] { c.to_string() }", "            sequence:$(['\\\\'] [_]) { sequence.to_owned() }"),
         ('escape-dropped-before-special-characters', 'brush-parser/src/pattern.rs', "            sequence:$(['\\\\'] [c if regex_char_needs_escaping(c)]) { sequence.to_owned() } /\n            ['\\\\'] [c] { c.to_string() }", "            ['\\\\'] [c] { c.to_string() }"),
         ('escaped-letter-in-brackets-is-a-class-again', 'brush-parser/src/pattern.rs', "            ['\\\\'] [c if c.is_ascii_alphanumeric()] { (c.to_string(), c) } /\n", ""),
